@@ -166,6 +166,7 @@ structure Ev where
   results : List Nat := []         -- history of `jobs_done`: ids in the order they were reported
   offset : Int := 0                -- `_num_jobs_offset`
   maxSub : Int := -1               -- `maximum_num_jobs_submitted`
+  askDelays : List Nat := []       -- environment: ticks each `ask()` of the search takes (missing = 0)
   deriving Repr
 
 def pcOf (s : Ev) (i : Nat) : Option Pc := (s.jobs[i]?).map (·.pc)
@@ -361,11 +362,16 @@ def expired (s : Ev) : Bool :=
   | some d => decide (d ≤ s.now)
   | none => false
 
+/-- `ask(n_ask)` (takes as long as the environment says — a slow surrogate fit lets the clock pass the
+deadline between the `time_left` test and the submit), then `submit` builds a new semaphore -/
+def askStep (s : Ev) : Ev :=
+  { s with semGen := s.semGen + 1, now := s.now + s.askDelays.headD 0, askDelays := s.askDelays.tail }
+
 /-- the `while` loop of `_search`; one list of reported ids per gather -/
 def loop (strict : Bool) (target : Int) : Ev → Nat → List (List Nat) → Ev × Stop
   | s, nAsk, reps =>
     if target < 0 ∨ numEvals strict s < target then
-      let sub := submitCap { s with semGen := s.semGen + 1 } nAsk
+      let sub := submitCap (askStep s) nAsk
       if sub.2 then (sub.1, .cap)
       else
         match reps with
@@ -416,6 +422,7 @@ inductive Op where
   | gather (all : Bool) (size : Nat) (rep : List Nat)
   | close (rep : List Nat)
   | settle
+  | askDelays (ds : List Nat)
   | search (c : Call) (reps : List (List Nat)) (drainRep : List Nat)
   deriving Repr
 
@@ -425,6 +432,7 @@ def step (s : Ev) : Op → Ev
   | .gather all size rep => (gather s all size rep).1
   | .close rep => (close s rep).1
   | .settle => settle s
+  | .askDelays ds => { s with askDelays := ds }
   | .search c reps drainRep => (search s c reps drainRep).1
 
 def runOps (s : Ev) : List Op → Ev
